@@ -10,7 +10,7 @@ Oracle: copy rule + rc // 1000 + independent re-decode of the dumped answer.
 from typing import List
 
 from vf.driver import Q
-from vf.h import P, reached, note, lib_errors, ref_avp, ref_msg
+from vf.h import REPLAY, P, reached, note, lib_errors, ref_avp, ref_msg
 
 from bromelia.bromelia import decorate_answer
 from bromelia.avps import (SessionIdAVP, ResultCodeAVP, ExperimentalResultAVP, ExperimentalResultCodeAVP, VendorIdAVP,
@@ -106,12 +106,12 @@ def _decorate(app, hbh, e2e, sid, rc, a_hbh, a_e2e, e_in):
         out = decorate_answer(ans, req)
     except LIB as e:
         reached()
-        note(raised=repr(e), rc=rc, e_in=e_in)
+        if REPLAY: note(raised=repr(e), rc=rc, e_in=e_in)
         return False
     reached()
     fam = rc // 1000
     want_err = fam in (3, 4, 5)
-    note(rc=rc, e_in=e_in, is_error=out.header.is_error(), want_error=want_err, length_field=out.get_length(),
+    if REPLAY: note(rc=rc, e_in=e_in, is_error=out.header.is_error(), want_error=want_err, length_field=out.get_length(),
          real_length=len(out.dump()))
     ok = (out.header.application_id == app.to_bytes(4, "big") and out.header.hop_by_hop == hbh.to_bytes(4, "big")
           and out.header.end_to_end == e2e.to_bytes(4, "big"))
